@@ -191,7 +191,7 @@ PROPS["C09"] = dict(
     level_note=_sample_note,
     stages=[dict(name="gen", kind="gen", module="Sample.tla", cfg="Sample_gen.cfg", consts=_sample_consts,
                  replay_args=["-notwhat", "Quantile,IQR"]),
-            dict(name="vec", kind="gen", family="vec", module="Vec.tla", cfg="Vec_gen.cfg"),
+            dict(name="vec", kind="gen", family="vec", module="Vec.tla", cfg="Vec_gen.cfg", consts=dict(Nums={"quick": "NumsQuick", "thorough": "NumsThorough"})),
             dict(name="trace", kind="trace", module="SampleTrace.tla", cfg="SampleTrace.cfg",
                  record_args={"quick": ["-n", 120, "-max", 60, "-ops", 30, "-funcs", "stats"], "thorough": ["-n", 3000, "-max", 200, "-ops", 40, "-funcs", "stats"]})],
 )
